@@ -63,6 +63,10 @@ func zzSCVerify(c *x509.Certificate, opts x509.VerifyOptions) ([][]*x509.Certifi
 	if opts.DNSName != "zz.example" {
 		return nil, errors.New("zz: certificate is not valid for the requested name")
 	}
+	// the certificates of this harness are valid at the configured time only
+	if opts.CurrentTime.Unix() != 1700000000 {
+		return nil, errors.New("zz: certificate has expired or is not yet valid")
+	}
 	iss := zzSC.issuer[c.Raw[0]]
 	if has(opts.Roots, iss) || (has(opts.Intermediates, iss) && has(opts.Roots, zzSC.issuer[iss])) {
 		return [][]*x509.Certificate{{c}}, nil
@@ -73,7 +77,7 @@ func zzSCVerify(c *x509.Certificate, opts x509.VerifyOptions) ([][]*x509.Certifi
 // H08-server-cert: the GMSSL client with verification enabled gets past the server's
 // Certificate message exactly when BOTH the signing and the encryption certificate chain to a
 // configured root - directly or through the CA certificates the server sends after them - and
-// are valid for the configured server name.
+// are valid for the configured server name at the CONFIGURED time (Config.Time), not the wall clock.
 //
 //verif:property C08
 //verif:property C06
@@ -99,7 +103,7 @@ func zzH_c08_server_cert() {
 		mk := func(cn string, serial int64, parent *x509.Certificate, parentKey *sm2.PrivateKey, ca bool, ku x509.KeyUsage) (*x509.Certificate, *sm2.PrivateKey, []byte) {
 			k, _ := sm2.GenerateKey(rand.Reader)
 			t := &x509.Certificate{SerialNumber: big.NewInt(serial), Subject: pkix.Name{CommonName: cn},
-				NotBefore: time.Unix(1600000000, 0), NotAfter: time.Unix(1900000000, 0),
+				NotBefore: time.Unix(1600000000, 0), NotAfter: time.Unix(1750000000, 0), // valid at the configured time (2023), expired by the wall clock
 				IsCA: ca, BasicConstraintsValid: ca, KeyUsage: ku, SignatureAlgorithm: x509.SM2WithSM3}
 			if !ca {
 				t.DNSNames = []string{"zz.example"}
